@@ -398,7 +398,7 @@ func (c *causes) of(ref string, depth int) map[string]bool {
 
 // explain: every diff row must mention a blob with a recorded cause, or be a
 // left-over satisfied "missing|" edge; returns "" if some row is unexplained.
-func (c *causes) explain(diffs []string, refs map[string]bool, stuck map[string]bool) string {
+func (c *causes) explain(diffs []string, refs map[string]bool, stuck, indexed map[string]bool) string {
 	all := map[string]bool{}
 	for _, d := range diffs {
 		i := strings.IndexByte(d, '"')
@@ -414,7 +414,9 @@ func (c *causes) explain(diffs []string, refs map[string]bool, stuck map[string]
 		if strings.HasPrefix(key, "missing|") {
 			parts := strings.Split(key, "|")
 			if len(parts) == 3 {
-				if strings.HasPrefix(d, "extra row") && refs[parts[2]] {
+				// a satisfied edge left behind while the blob still waits
+				// for something else (not: left behind by an indexed blob)
+				if strings.HasPrefix(d, "extra row") && refs[parts[2]] && refs[parts[1]] && !indexed[parts[1]] {
 					got["stalemissing"] = true
 				}
 				// the edges of a waiting blob differ because of what made it wait
@@ -532,7 +534,11 @@ func runHistoryC05(rc *harness.RunCtx, p *harness.Plan, cfg *Config, w *world, o
 		ds := newDepState(w, refs)
 		// blobs the model says are complete but the index has not finished
 		stuck := map[string]bool{}
+		indexed := map[string]bool{}
 		for ref := range refs {
+			if strings.HasSuffix(rows["have:"+ref], "|indexed") {
+				indexed[ref] = true
+			}
 			if st := ds.refState(ref); st == 1 && !strings.HasSuffix(rows["have:"+ref], "|indexed") {
 				stuck[ref] = true
 			} else if st == 2 {
@@ -547,7 +553,7 @@ func runHistoryC05(rc *harness.RunCtx, p *harness.Plan, cfg *Config, w *world, o
 			return true
 		}
 		if d := diffRows(rows, canon, nil); len(d) > 0 {
-			if report("rows-differ-from-canonical", diffFamilies(d), cs.explain(d, refs, stuck), fmt.Sprintf("after quiescence the index rows differ from those of the canonical (dependencies-first) history of the same %d blobs: %s", len(refs), clip(d, 6)), opIdx) {
+			if report("rows-differ-from-canonical", diffFamilies(d), cs.explain(d, refs, stuck, indexed), fmt.Sprintf("after quiescence the index rows differ from those of the canonical (dependencies-first) history of the same %d blobs: %s", len(refs), clip(d, 6)), opIdx) {
 				return true
 			}
 		}
@@ -557,7 +563,7 @@ func runHistoryC05(rc *harness.RunCtx, p *harness.Plan, cfg *Config, w *world, o
 			return true
 		}
 		if d := diffRows(rows, reidx, nil); len(d) > 0 {
-			if report("rows-differ-from-reindex", diffFamilies(d), cs.explain(d, refs, stuck), fmt.Sprintf("after quiescence the index rows differ from those a full Reindex() from the blob source produces (Reindex said: %q): %s", rerr, clip(d, 6)), opIdx) {
+			if report("rows-differ-from-reindex", diffFamilies(d), cs.explain(d, refs, stuck, indexed), fmt.Sprintf("after quiescence the index rows differ from those a full Reindex() from the blob source produces (Reindex said: %q): %s", rerr, clip(d, 6)), opIdx) {
 				return true
 			}
 		}
@@ -705,7 +711,11 @@ func runHistoryC05(rc *harness.RunCtx, p *harness.Plan, cfg *Config, w *world, o
 
 func execC05(rc *harness.RunCtx, p *harness.Plan, cfg *Config, w *world, ops []Op) *harness.Outcome {
 	out := &harness.Outcome{Ops: len(ops), Reached: map[string]int{}}
-	orc := newOracle(rc, w, cfg, p.SchedSeed)
+	oseed := p.SchedSeed
+	if cfg.OracleSeed != 0 {
+		oseed = cfg.OracleSeed
+	}
+	orc := newOracle(rc, w, cfg, oseed)
 	finish := func() *harness.Outcome {
 		out.SubRuns += orc.n
 		mode := "seeded"
@@ -747,6 +757,7 @@ func execC05(rc *harness.RunCtx, p *harness.Plan, cfg *Config, w *world, ops []O
 				rp.Mode = "seeded"
 				c2 := *cfg
 				c2.Perm = false
+				c2.OracleSeed = oseed
 				rp.Config = harness.MustJSON(c2)
 				rp.Ops = opsJSON(sub)
 				rp.SchedSeed = seed
